@@ -54,6 +54,63 @@ def explain(n, obs):
     return ["other"]
 
 
+def check_nodes(F, p, where, fam_key, size):
+    """every node of p against the independent traversal (same rule as the main loop)"""
+    n = 0
+    for node, below_list in all_nodes(p):
+        n += 1
+        if any(not hasattr(node, a) for a in ATTRS):
+            continue  # reported by the main loop under :no-metadata
+        try:
+            obs = observed(node)
+        except Exception:
+            continue
+        why = explain(node, obs)
+        if not why:
+            continue
+        exp = norm(meta_oracle(node))
+        diffs = [f"{label}={o} (traversal: {e})" for label, o, e in zip(("gengy_nodes", "gengy_distance_to_term", "gengy_weighted_nodes"), obs[:3], exp[:3]) if o != e]
+        if obs[3] != exp[3]:
+            diffs.append("gengy_types_this_way=" + str({k.__name__: len(v) for k, v in obs[3].items()}) + " (traversal: " + str({k.__name__: len(v) for k, v in exp[3].items()}) + ")")
+        for w in why:
+            F.add(f"{fam_key}:{w}", f"{where}: node {show(node, 60)}: " + "; ".join(diffs), size=size + count_nodes(node) * 10)
+    return n
+
+
+def parents_after_crossover(F, fam, seed, quick):
+    """Tree crossover of a program with itself, with a structurally equal duplicate and with an unrelated one: afterwards the
+    metadata of the PARENTS (programs the library created, still in the population) must still equal the traversal -- a
+    crossover that edits the other parent's type index in place leaves a stale index behind."""
+    from geneticengine.grammar.grammar import extract_grammar
+    from geneticengine.random.sources import NativeRandomSource
+    from geneticengine.representations.tree.initializations import MaxDepthDecider
+    from geneticengine.representations.tree.treebased import TreeBasedRepresentation
+
+    n = 0
+    for name, classes, start, _desc in fam:
+        try:
+            g = extract_grammar(list(classes), start)
+            lo = g.get_min_tree_depth()
+            if lo >= 1000000:
+                continue
+        except Exception:
+            continue
+        for sd in range(seed, seed + (3 if quick else 12)):
+            try:
+                r = NativeRandomSource(sd)
+                rep = TreeBasedRepresentation(g, MaxDepthDecider(r, g, lo + 2))
+                a = rep.create_genotype(NativeRandomSource(sd))
+                twin = TreeBasedRepresentation(g, MaxDepthDecider(NativeRandomSource(sd), g, lo + 2)).create_genotype(NativeRandomSource(sd))
+                other = rep.create_genotype(r)
+                for label, x, y in (("with itself", a, a), ("with a structurally equal duplicate", a, twin), ("with another program", a, other)):
+                    kids = rep.crossover(r, x, y)
+                    for who, prog in (("first parent", x), ("second parent", y), ("first child", kids[0]), ("second child", kids[1])):
+                        n += check_nodes(F, prog, f"{name}, tree crossover {label} (seed {sd}), {who} afterwards", "create_node", 50)
+            except Exception:
+                continue
+    return n
+
+
 def run(tier: str, seed: int) -> dict:
     thorough = tier == "thorough"
     budget = Budget(430 if thorough else 33)
@@ -128,11 +185,12 @@ def run(tier: str, seed: int) -> dict:
                     f"{c.where()}: node {show(n, 60)}{' (below a list)' if below_list else ''}: " + "; ".join(diffs),
                     size=c.size + count_nodes(n) * 10,
                 )
+    nodes_checked += parents_after_crossover(F, fam, seed, not thorough)
     n_ex = sum(1 for x in cells if x[4])
     rule = (
         f"{len(fam)} family grammars x 8 representations/deciders x max_depth in [reported minimum, +{extra_depths - 1}]: every node of every program created over all draw outcomes "
         f"(<= {ex_runs} runs per cell, {n_ex}/{len(cells)} cells exhausted), of {seeds} seeds x (2 creations + 3 mutate/crossover steps), and of GE boundary genotypes: "
-        f"gengy_nodes, gengy_distance_to_term, gengy_weighted_nodes, gengy_types_this_way against an independent traversal ({nodes_checked} nodes compared)"
+        f"gengy_nodes, gengy_distance_to_term, gengy_weighted_nodes, gengy_types_this_way against an independent traversal ({nodes_checked} nodes compared); tree crossover of a program with itself / an equal duplicate / another program: parents and children re-checked afterwards"
         + ("; wall-clock budget reached, remaining cells skipped" if budget.tripped else "")
     )
     return result(evaluations, len(distinct), rule, samples, F.violations(), exhaustive=False, nodes_checked=nodes_checked, cells=len(cells), cells_exhausted=n_ex, budget_tripped=budget.tripped)
